@@ -94,6 +94,11 @@ func (p *FSimpleServer) accept(client thrift.TTransport) error {
 
 	logger().Debug("frugal: client connection accepted")
 
+	// Whatever ends the loop, the connection is served no more: close it, so
+	// that the peer learns it and the descriptor is not held until a
+	// garbage-collection cycle finalizes the socket.
+	defer client.Close()
+
 	for {
 		// A request is one frame. The processor is handed exactly that frame
 		// (as by the NATS and HTTP servers), so that a malformed request can
